@@ -399,6 +399,8 @@ pub fn inputs() -> Vec<(&'static str, V)> {
         ("(:a = 1, :b = 2)", V::List(vec![V::pair(V::sym("a"), V::Int(1)), V::pair(V::sym("b"), V::Int(2))])),
         ("(:a = 1, 7)", V::List(vec![V::pair(V::sym("a"), V::Int(1)), V::Int(7)])),
         ("0", V::Int(0)),
+        // a key whose value is unit: found, and not to be confused with "not found"
+        ("(:a = (), 7)", V::List(vec![V::pair(V::sym("a"), V::Unit), V::Int(7)])),
     ]
 }
 
